@@ -180,7 +180,6 @@ wraps64(uint64_t ctr0, uint64_t nblk) {
 
 /* ------------------------------------------------------------------ BFS over one configuration */
 static uint64_t g_execs = 0;
-static size_t g_maxL[3][2][7][4];	/* distinct states: per configuration the largest n explored, +1 */
 static uint8_t KS[LMAX + 128];
 static chacha_context_str_t SNAP[LMAX + 1];
 static uint8_t SNAP_CANON[LMAX + 1][CANON_MAX];
@@ -279,12 +278,11 @@ bfs(const cfg_t *cfg, size_t L, int full) {
 	size_t n, c;
 	int vi, nv = full ? NVARIANTS_FULL : 5, v;
 	int seeded = 0, r, kl, ci;
+	uint64_t owned = 0, execs0 = g_execs;
 
 	for (r = 0; ROUNDS[r] != cfg->rounds; r ++) ;
 	for (kl = 0; KEYLEN[kl] != cfg->keylen; kl ++) ;
 	for (ci = 0; CTRS[ci] != cfg->ctr0; ci ++) ;
-	if (g_maxL[r][kl][ci][cfg->nonce_id] < L + 1)
-		g_maxL[r][kl][ci][cfg->nonce_id] = L + 1;
 	for (vi = 0; vi < nv; vi ++) {
 		v = full ? vi : VARIANTS_5[vi];
 		for (n = 0; n <= L; n ++) {
@@ -296,9 +294,14 @@ bfs(const cfg_t *cfg, size_t L, int full) {
 					seeded = 1;
 				}
 				transition(cfg, n, c, v);
+				owned ++;
 			}
 		}
 	}
+	/* progressive bookkeeping (survives a later crash of this process): configuration, states, transitions
+	 * run by this process, executions of the real function */
+	printf("NOTE\tbfs\t%d.%d.%d.%d\t%zu\t%llu\t%llu\n", r, kl, ci, cfg->nonce_id, L + 1,
+	    (unsigned long long)owned, (unsigned long long)(g_execs - execs0));
 }
 
 /* ------------------------------------------------------------------ one-shot entry points */
@@ -834,11 +837,5 @@ main(int argc, char **argv) {
 		}
 	}
 
-	{
-		uint64_t g_states = 0;
-		for (r = 0; r < 3; r ++) for (kl = 0; kl < 2; kl ++) for (c = 0; c < 7; c ++) for (nn = 0; nn < 4; nn ++)
-			g_states += g_maxL[r][kl][c][nn];
-		printf("NOTE\tshard=%d states=%llu executions=%llu\n", vh_shard, (unsigned long long)g_states, (unsigned long long)g_execs);
-	}
 	return (vh_finish());
 }
